@@ -231,9 +231,42 @@ func failingExpr(r *Rng) string {
 var histKeyPool = []string{"", "a", "ab", "abc", "k1", "k2", "k3", "k10", "K1", "AB", "10", "7", "x-y", "b", "zz", "m_1", "k001", "k002"}
 var histValPool = []string{"v", "v1", "v2", "V", "hello", "Hello", "12", "0", "5", "", "x y", "val_a", "k1", "a-b", "1000"}
 
+// floatForms are float-typed expressions; their text form is whatever the
+// engine's own str() says (the harness does not mirror a format).
+var floatForms = []string{"1.5", "(3 * 0.5)", "float('2')", "(0.25 + 2)", "(10.5 - 0.5)", "2.0"}
+
+var engineStrCache = map[string]string{}
+
+// engineStr returns the text the engine's str() gives for a constant expression.
+func engineStr(expr string) (string, bool) {
+	if v, ok := engineStrCache[expr]; ok {
+		return v, v != "\x00"
+	}
+	w := NewWorld([]KV{{"p", "1"}}, Config{Batch: 4}, nil, "str")
+	r := execStmt(w.H, 0, Stmt{Text: "select str(" + expr + ") where key = 'p'", Mode: ModeRow}, Config{Batch: 4})
+	if r.Failed() || len(r.Rows) != 1 || len(r.Rows[0]) != 1 {
+		engineStrCache[expr] = "\x00"
+		return "", false
+	}
+	t, ok := unquoteCanon(r.Rows[0][0])
+	if !ok {
+		engineStrCache[expr] = "\x00"
+		return "", false
+	}
+	engineStrCache[expr] = t
+	return t, true
+}
+
 func genHistPair(r *Rng, withValue bool) HistPair {
 	k := pick(r, histKeyPool)
 	p := HistPair{K: k, KT: textExpr(r, k, nil, 2)}
+	if r.Chance(0.04) {
+		ff := pick(r, floatForms)
+		if t, ok := engineStr(ff); ok {
+			p.K, p.KT = t, ff
+			k = t
+		}
+	}
 	if withValue {
 		var v string
 		switch r.Intn(5) {
@@ -248,6 +281,12 @@ func genHistPair(r *Rng, withValue bool) HistPair {
 		}
 		p.V = v
 		p.VT = textExpr(r, v, &k, 2)
+		if r.Chance(0.04) {
+			ff := pick(r, floatForms)
+			if t, ok := engineStr(ff); ok {
+				p.V, p.VT = t, ff
+			}
+		}
 	}
 	return p
 }
